@@ -13,6 +13,7 @@ import (
 
 	"amverif/codec"
 	"amverif/conc"
+	"amverif/hist"
 	"amverif/pipes"
 	"amverif/core"
 	"amverif/helpers"
@@ -34,6 +35,8 @@ func main() {
 		os.Exit(cmdConc(os.Args[2:]))
 	case "pipes":
 		os.Exit(cmdPipes(os.Args[2:]))
+	case "hist":
+		os.Exit(cmdHist(os.Args[2:]))
 	case "disposereplay":
 		b, _ := os.ReadFile(os.Args[2])
 		dc, err := conc.ParseDCase(strings.Split(string(b), "\n"))
@@ -248,6 +251,82 @@ func cmdConc(args []string) int {
 	}
 	fmt.Printf("cases=%d evaluations=%d transitions=%d disagreements=%d failures=%d wall=%.1fs extra=%v\n",
 		res.Cases, res.Evaluations, res.Transitions, len(res.Disagreements), len(res.Failures), res.WallS, res.Extra)
+	for _, d := range res.Disagreements {
+		if d.File != "" {
+			fmt.Printf("DISAGREE %s line %d: %s\n  impl : %s\n  model: %s\n", d.File, d.Line, d.Op, d.Impl, d.Model)
+		}
+	}
+	for _, f := range res.Failures {
+		fmt.Printf("MONITOR-FAIL finding=%q %s (%s)\n", f.Finding, f.Msg, f.File)
+	}
+	if len(res.Disagreements) > 0 || len(res.Failures) > 0 {
+		return 1
+	}
+	return 0
+}
+
+func cmdHist(args []string) int {
+	fs := flag.NewFlagSet("hist", flag.ExitOnError)
+	fs.String("prop", "C17", "")
+	tier := fs.String("tier", "quick", "quick|thorough")
+	seed := fs.Int64("seed", 1, "PRNG seed")
+	n := fs.Int("cases", 0, "generated cases")
+	driver := fs.String("driver", "/verif/lean/.lake/build/bin/amdriver", "model driver")
+	out := fs.String("out", "/verif/out", "")
+	result := fs.String("result", "", "")
+	corpus := fs.String("corpus", "", "")
+	replay := fs.String("replay", "", "")
+	search := fs.Bool("search", false, "")
+	fs.Parse(args)
+	if *replay != "" {
+		c, err := hist.LoadCase(*replay)
+		if err != nil {
+			fmt.Println(err)
+			return 2
+		}
+		run := hist.Exec(c)
+		model, err := core.RunModel(*driver, []core.Case{{Lines: run.Lines}})
+		if err != nil {
+			fmt.Println(err)
+			return 2
+		}
+		rc := 0
+		for i := range run.Lines {
+			mark := " "
+			if i >= len(model[0]) || model[0][i] != run.Obs[i] {
+				mark, rc = "!", 1
+			}
+			fmt.Printf("%s %s\n    impl : %s\n    model: %s\n", mark, run.Lines[i], run.Obs[i], model[0][i])
+		}
+		if run.Err != "" {
+			fmt.Println("ERROR", run.Err)
+			rc = 1
+		}
+		for _, f := range run.Failures {
+			fmt.Printf("MONITOR C17: %s\n", f)
+			rc = 1
+		}
+		return rc
+	}
+	if *n == 0 {
+		*n = 300
+		if *tier == "thorough" {
+			*n = 4000
+		}
+	}
+	if *search {
+		*n *= 4
+	}
+	var dirs []string
+	if *corpus != "" {
+		dirs = strings.Split(*corpus, ",")
+	}
+	res := hist.RunPipeline(*seed, *tier, *driver, *out, *n, *search, dirs)
+	b, _ := json.MarshalIndent(res, "", " ")
+	if *result != "" {
+		os.WriteFile(*result, b, 0o644)
+	}
+	fmt.Printf("cases=%d evaluations=%d disagreements=%d failures=%d wall=%.1fs extra=%v note=%s\n", res.Cases, res.Evaluations, len(res.Disagreements), len(res.Failures), res.WallS, res.Extra, res.Note)
 	for _, d := range res.Disagreements {
 		if d.File != "" {
 			fmt.Printf("DISAGREE %s line %d: %s\n  impl : %s\n  model: %s\n", d.File, d.Line, d.Op, d.Impl, d.Model)
